@@ -406,6 +406,203 @@ def section_maildir(ctx) -> None:
                         {'section': 'maildir', 'during_drain': during}, {'kind': 'done_ok'})
 
 
+
+# ------------------------------------------------- maildir under a virtual clock
+MD_HEADER = 'From PV Require Import Base.Prelude Sync.MaildirIdle Sync.MaildirIdleCheck.\n'
+_DONE_LINES = [b'DONE\r\n', b'done\r\n', b'DONE\n', b'DONE x\r\n', b'NOOP\r\n']
+_KINDS = ['append', 'store', 'seen', 'expunge']
+
+
+def md_schedules(ctx):
+    """(schedule, compared with the model?)"""
+    scheds = []
+    # sweep: two changes at every offset inside the poll interval
+    k = 0
+    for i in range(0, 5):
+        for j in range(0, 5):
+            if ctx.quick and (i + 2 * j) % 3:
+                continue
+            a, b = _KINDS[k % 4], _KINDS[(k // 4 + k + 1) % 4]
+            k += 1
+            acts = [('adv', i)] if i else []
+            acts += [('change', a)]
+            acts += [('adv', j)] if j else []
+            acts += [('change', b), ('adv', 5), ('line', _DONE_LINES[k % len(_DONE_LINES)])]
+            scheds.append((acts, True))
+    # random schedules, DONE at any moment
+    for _ in range(ctx.scale(8, 40)):
+        acts = []
+        for _ in range(ctx.rng.randint(3, 7)):
+            if ctx.rng.random() < 0.5:
+                acts.append(('change', ctx.rng.choice(_KINDS)))
+            else:
+                acts.append(('adv', ctx.rng.randint(1, 6)))
+        acts.append(('line', ctx.rng.choice(_DONE_LINES)))
+        scheds.append((acts, True))
+    # other sessions' activity that changes nothing, inside the poll interval (monitors only)
+    for neutral in ('select3', 'peek', 'examine3'):
+        for kind in ('store', 'append', 'seen'):
+            scheds.append(([('adv', 1), ('change', kind), ('adv', 1), ('neutral', neutral), ('adv', 2),
+                            ('adv', 3), ('neutral', neutral), ('change', 'store'), ('adv', 5),
+                            ('line', b'DONE\r\n')], False))
+    # a change that is pending (made after the idler's last command) when IDLE starts
+    for kind in ('append', 'store', 'expunge'):
+        scheds.append(([('pre', kind), ('adv', 2), ('adv', 3), ('change', 'store'), ('adv', 5),
+                        ('line', b'DONE\r\n')], False))
+    return scheds
+
+
+async def md_play(layout, acts):
+    from ..mdidle import MdIdleRun, PERIOD_TICKS
+    r = MdIdleRun(layout)
+    problems = []
+    try:
+        o0 = await r.start([a[1] for a in acts if a[0] == 'pre'])
+        recs = []
+        since_change = 0
+        ended = False
+        for a in acts:
+            if a[0] == 'pre':
+                continue
+            rec = await r.act(a)
+            recs.append(rec)
+            if a[0] == 'change':
+                since_change = 0
+            elif a[0] == 'adv':
+                since_change += a[1]
+            if rec['ended'] is not None:
+                ended = True
+            if rec['exc']:
+                problems.append(('idle_delivery', 'exception', f'exception escaped the idler: {rec["exc"]}'))
+            if r.shadow.errors:
+                problems.append(('idle_seq_rules', 'seq', f'after {a}: {r.shadow.errors[:3]}'))
+                r.shadow.errors.clear()
+            if r.expunges_told > r.expunged_real:
+                problems.append(('idle_seq_rules', 'phantom_expunge',
+                                 f'after {a} the idler was told {r.expunges_told} EXPUNGE but only '
+                                 f'{r.expunged_real} messages were expunged: {rec["out"]!r}'))
+                r.expunged_real = r.expunges_told
+            if not ended and a[0] == 'adv' and since_change >= PERIOD_TICKS:
+                truth = await r.truth()
+                if not r.shadow.matches(truth):
+                    problems.append(('idle_delivery', 'maildir_poll',
+                                     f'{since_change} ticks (period {PERIOD_TICKS}) after the last change '
+                                     f'the idler knows {r.shadow.msgs} but the mailbox is {truth}'))
+            if a[0] == 'line':
+                want = a[1].strip().upper() == b'DONE'
+                if rec['ended'] is not want:
+                    problems.append(('idle_done', 'done_ok', f'line {a[1]!r} answered {rec["out"]!r}'))
+        if ended:
+            await r.after_done()
+            truth = await r.truth()
+            if not r.shadow.matches(truth):
+                problems.append(('idle_delivery', 'lost_across_done',
+                                 f'after IDLE ended + NOOP the idler knows {r.shadow.msgs} but the '
+                                 f'mailbox is {truth}'))
+            if r.shadow.errors:
+                problems.append(('idle_seq_rules', 'seq', f'after NOOP: {r.shadow.errors[:3]}'))
+        return o0, recs, problems
+    finally:
+        r.close()
+
+
+def _enc_mobs(rec) -> str:
+    e = rec['ended']
+    return f'(mkMObs {T.boolean(rec["wrote"])} {"None" if e is None else "(Some " + T.boolean(e) + ")"})'
+
+
+def _enc_mact(a) -> str:
+    if a[0] == 'change':
+        return 'AChange'
+    if a[0] == 'adv':
+        return f'(AAdvance {a[1]})'
+    return f'(ADone {T.boolean(a[1].strip().upper() == b"DONE")})'
+
+
+def section_mdidle(ctx) -> None:
+    from ..mdidle import vrun, PERIOD_TICKS
+    cases, descr = [], []
+    for n, (acts, compared) in enumerate(md_schedules(ctx)):
+        layout = '++' if n % 3 else 'fs'
+        replay = {'section': 'mdidle', 'layout': layout,
+                  'schedule': [[a[0], a[1].decode('latin-1') if isinstance(a[1], bytes) else a[1]]
+                               for a in acts]}
+        try:
+            o0, recs, problems = vrun(md_play(layout, acts))
+        except Exception as exc:   # noqa: BLE001
+            ctx.failure('idle_delivery', f'maildir idle run failed: {exc!r} (schedule {acts})', replay,
+                        {'kind': 'run_failed'})
+            continue
+        ctx.count(('mdidle', layout, repr(acts)), nontrivial=True)
+        for clause, kind, text in problems[:2]:
+            ctx.failure(clause, f'maildir IDLE ({layout}): {text} (schedule {acts})', replay,
+                        {'kind': kind})
+        if compared:
+            obs = '[' + '; '.join(f'({_enc_mact(a)}, {_enc_mobs(r)})' for a, r in zip(acts, recs)) + ']'
+            cases.append(f'({PERIOD_TICKS}, {_enc_mobs(o0)}, {obs})')
+            descr.append((replay, bool(problems)))
+    ctx.sample({'mdidle_schedule': repr(md_schedules(ctx)[0][0])})
+    bad = ctx.run_cases('maildir_idle', MD_HEADER, 'nat * mobs * list (maction * mobs)', cases,
+                        'chk_mdidle')
+    for i in bad:
+        replay, failed = descr[i]
+        if not failed:
+            ctx.disagreement('maildir_idle', replay)
+    if bad and all(descr[i][1] for i in bad):
+        ctx.broken.append(f'correspondence maildir_idle: {len(bad)} runs of the real maildir idler are '
+                          f'not behaviours of the poll-loop model (each also fails a monitor)')
+
+
+def section_events(ctx) -> None:
+    """random operation sequences on real _AsyncioEvent objects vs Sync/MaildirIdle.v ev_*"""
+    from ..mdidle import events_run
+    cases, descr = [], []
+    for _ in range(ctx.scale(150, 1500)):
+        ops, n = [], 0
+        for _ in range(ctx.rng.randint(2, 9)):
+            c = ctx.rng.random()
+            if n == 0 or c < 0.25:
+                ops.append(('new',))
+                n += 1
+            elif c < 0.5:
+                ops.append(('or', [ctx.rng.randrange(n) for _ in range(ctx.rng.randint(1, 3))]))
+                n += 1
+            elif c < 0.85:
+                ops.append(('set', ctx.rng.randrange(n)))
+            else:
+                ops.append(('clear', ctx.rng.randrange(n)))
+        flags = events_run(ops)
+        ctx.count(('events', repr(ops)), nontrivial=any(o[0] == 'or' for o in ops))
+        # monitor (docstring of Event.or_event): an or-event made of events that are set later is set
+        made = {}
+        k = 0
+        for op, fl in zip(ops, flags):
+            if op[0] in ('new', 'or'):
+                if op[0] == 'or':
+                    made[k] = set(op[1])
+                k += 1
+            if op[0] == 'set':
+                for o, parts in made.items():
+                    if op[1] in parts and not fl[o]:
+                        ctx.failure('idle_delivery', f'or_event {o} of {sorted(parts)} not set by '
+                                    f'set() of {op[1]} (ops {ops})',
+                                    {'section': 'events', 'ops': [list(o) for o in ops]},
+                                    {'kind': 'or_event'})
+
+        def enc(op):
+            if op[0] == 'new':
+                return 'ENew'
+            if op[0] == 'or':
+                return f'(EOr [{"; ".join(str(i) for i in op[1])}])'
+            return f'({"ESet" if op[0] == "set" else "EClear"} {op[1]})'
+        cases.append('[' + '; '.join(f'({enc(op)}, [{"; ".join(T.boolean(b) for b in fl)}])'
+                                     for op, fl in zip(ops, flags)) + ']')
+        descr.append(ops)
+    bad = ctx.run_cases('asyncio_event', MD_HEADER, 'list (evop * list bool)', cases, 'chk_events')
+    for i in bad[:3]:
+        ctx.disagreement('asyncio_event', {'ops': repr(descr[i])})
+
+
 def run(ctx) -> None:
     ctx.rule = ('every placement of the writers\' bursts relative to the idlers\' drain points '
                 '(idlers paused inside writer.drain()), each ended by a client line; after every '
@@ -414,13 +611,17 @@ def run(ctx) -> None:
     ctx.assumptions += [
         'a dict-backend command body runs without suspending (bursts sent in one write are atomic)',
         'asyncio event loop fairness: a task with a ready handle is eventually run',
-        'maildir: delivery relies on the 1 s poll (monitored with real time, not modelled)',
+        'maildir: the poll loop is modelled with a virtual clock in which time passes only while '
+        'the idler has nothing to run; a rescan and a command of another session are atomic',
     ]
-    ctx.check_proofs(['Sync/IdleCheck'])
+    ctx.check_proofs(['Sync/IdleCheck', 'Sync/MaildirIdleCheck'])
     recheck = os.environ.get('VERIF_C16_RECHECK', 'true') == 'true'
-    section_dict(ctx, recheck)
-    section_races(ctx)
-    section_maildir(ctx)
+    only = [x for x in os.environ.get('VERIF_C16_SECTIONS', '').split(',') if x]   # development aid
+    for name, fn in (('dict', lambda: section_dict(ctx, recheck)), ('races', lambda: section_races(ctx)),
+                     ('maildir', lambda: section_maildir(ctx)), ('mdidle', lambda: section_mdidle(ctx)),
+                     ('events', lambda: section_events(ctx))):
+        if not only or name in only:
+            fn()
     ctx.exhaustive = all(x['all_placements'] for x in ctx.extra.get('idle_exploration', []))
 
 
@@ -435,6 +636,22 @@ def replay(ctx, data) -> int:
         print('initial:', rec['o0'])
         for a, o in rec['steps']:
             print(a, '->', o)
+        return 0
+    if data.get('section') == 'mdidle':
+        from ..mdidle import vrun
+        acts = [(a[0], a[1].encode('latin-1') if a[0] == 'line' else a[1]) for a in data['schedule']]
+        o0, recs, problems = vrun(md_play(data['layout'], acts))
+        print('after IDLE:', o0['out'])
+        for rec in recs:
+            print(rec['action'], rec.get('did', ''), '->', rec['out'], 'ended:', rec['ended'])
+        for pr in problems:
+            print('MONITOR', pr)
+        return 0
+    if data.get('section') == 'events':
+        from ..mdidle import events_run
+        ops = [tuple(o) for o in data['ops']]
+        for op, fl in zip(ops, events_run(ops)):
+            print(op, '->', fl)
         return 0
     if data.get('section') == 'maildir':
         got, out = arun(maildir_scenario(ctx, data['during_drain']), timeout=60)
